@@ -277,6 +277,8 @@ class Execution:
         self.events = []         # model events: ("Build", i) | ("Backward", root, seedvec) | ("ZeroTensor", v) | ...
         self.obs = []            # per model event: None (not observed) | {"bufs": [...], "log": [...]} | "raised"
         self.pool = {}           # program id -> real tensor
+        self.mods = {}           # program module id -> real nn.Module
+        self.opts = {}           # program optimizer id -> (real optimizer, arena indices of its parameters at construction)
         self.error = None
         self.raised_at = None
 
@@ -388,6 +390,33 @@ def execute(steps):
                 o = impl.optim.SGD([E.pool[i] for i in st["ps"]], lr=0.5)
                 o.zero_grad()
                 E.events.append(("ZeroOptim", [R.idx(E.pool[i]) for i in st["ps"]])); E.obs.append({"bufs": snapshot(R), "log": []})
+            elif k == "mod_new":
+                E.mods[st["m"]] = impl.nn.Module()
+            elif k == "mod_set":          # parent.<name> = child module   (Module.__setattr__ registers it)
+                setattr(E.mods[st["m"]], st["name"], E.mods[st["child"]])
+            elif k == "mod_setp":         # module.<name> = Parameter
+                setattr(E.mods[st["m"]], st["name"], E.pool[st["t"]])
+            elif k == "mod_unset":        # module.<name> = None drops the registration
+                setattr(E.mods[st["m"]], st["name"], None)
+            elif k == "mod_inspect":      # the tree is looked at (summary, len(parameters()), ...)
+                m = E.mods[st["m"]]
+                if st.get("how") == "num_params":
+                    m.num_params()
+                else:
+                    m.parameters()
+            elif k == "zero_tree":        # module.zero_grad() on a real module tree
+                m = E.mods[st["m"]]
+                want = [R.idx(p) for p in reachable_parameters(m)]     # at the time of the call, not through parameters()
+                m.zero_grad()
+                E.events.append(("ZeroModule", want)); E.obs.append({"bufs": snapshot(R), "log": []})
+            elif k == "opt_new":          # optimizer built from module.parameters() now
+                m = E.mods[st["m"]]
+                want = [R.idx(p) for p in reachable_parameters(m)]
+                E.opts[st["o"]] = (impl.optim.SGD(m.parameters(), lr=0.5), want)
+            elif k == "zero_optim":
+                o, want = E.opts[st["o"]]
+                o.zero_grad()
+                E.events.append(("ZeroOptim", want)); E.obs.append({"bufs": snapshot(R), "log": []})
             elif k == "retain":
                 t = E.pool[st["t"]]
                 E.events.append(("RetainGrad", R.idx(t)))
@@ -403,6 +432,22 @@ def execute(steps):
         Recorder.current = None
         impl.reset_modes()
     return E
+
+
+def reachable_parameters(m):
+    """Specification of "the parameters of module m": everything registered in m or in a module reachable from m through
+    registered submodules, read directly from the registries at the time of the call (never through Module.parameters())."""
+    out, seen_p, seen_m, todo = [], set(), set(), [m]
+    while todo:
+        x = todo.pop(0)
+        if id(x) in seen_m:
+            continue
+        seen_m.add(id(x))
+        for p in x._parameters.values():
+            if id(p) not in seen_p:
+                seen_p.add(id(p)); out.append(p)
+        todo.extend(x._submodules.values())
+    return out
 
 
 # ----------------------------------------------------------------------------------------------
@@ -993,6 +1038,22 @@ def describe(steps):
             out.append("SGD([%s]).zero_grad()" % ", ".join("t%d" % i for i in st["ps"]))
         elif k == "retain":
             out.append("t%d.retain_grad()" % st["t"])
+        elif k == "mod_new":
+            out.append("m%d = nn.Module()" % st["m"])
+        elif k == "mod_set":
+            out.append("m%d.%s = m%d" % (st["m"], st["name"], st["child"]))
+        elif k == "mod_setp":
+            out.append("m%d.%s = t%d" % (st["m"], st["name"], st["t"]))
+        elif k == "mod_unset":
+            out.append("m%d.%s = None" % (st["m"], st["name"]))
+        elif k == "mod_inspect":
+            out.append("m%d.%s()" % (st["m"], st.get("how", "parameters")))
+        elif k == "zero_tree":
+            out.append("m%d.zero_grad()" % st["m"])
+        elif k == "opt_new":
+            out.append("o%d = SGD(m%d.parameters())" % (st["o"], st["m"]))
+        elif k == "zero_optim":
+            out.append("o%d.zero_grad()" % st["o"])
     return out
 
 
@@ -1063,3 +1124,90 @@ def usable(E, limit=1 << 48):
         if isinstance(ob, dict):
             bufs = list(ob["bufs"])
     return True
+
+
+def gen_tree_history(rng, max_events=12):
+    """Histories whose resets go through real module TREES whose registrations change during the history:
+    nested modules, Parameters registered (and dropped) on nested children at any time, the tree inspected at random points,
+    resets via any module of the tree or via optimizers built early or late from module.parameters()."""
+    G = Gen(rng, max_nodes=36)
+    S = G.steps
+    nmods = rng.randint(2, 4)
+    parent = {}
+    for m in range(nmods):
+        S.append({"k": "mod_new", "m": m})
+    regs = {m: {} for m in range(nmods)}       # module -> name -> ("p", leaf id) | ("m", module id)
+    linked = set()
+
+    def link(m):
+        par = rng.randint(0, m - 1)
+        S.append({"k": "mod_set", "m": par, "name": "sub%d" % m, "child": m})
+        regs[par]["sub%d" % m] = ("m", m)
+        linked.add(m)
+
+    def reach(m, seen=None):
+        seen = seen if seen is not None else set()
+        if m in seen:
+            return []
+        seen.add(m)
+        out = [v[1] for v in regs[m].values() if v[0] == "p"]
+        for v in regs[m].values():
+            if v[0] == "m":
+                out += reach(v[1], seen)
+        return out
+
+    def new_param(m=None):
+        p = G.leaf(req=rng.random() < 0.85, param=True)
+        m = rng.randint(0, nmods - 1) if m is None else m
+        name = "w%d" % p
+        S.append({"k": "mod_setp", "m": m, "name": name, "t": p})
+        regs[m][name] = ("p", p)
+        return p
+
+    late = [m for m in range(1, nmods) if rng.random() < 0.35]      # submodules attached only later
+    for m in range(1, nmods):
+        if m not in late:
+            link(m)
+    for _ in range(rng.randint(1, 2)):
+        new_param()
+    opts = 0
+    nev = 0
+    nmax = rng.randint(5, max_events)
+    while nev < nmax:
+        c = rng.random()
+        tracked = [i for i in G.vals if G.req[i]]
+        inner = [i for i in tracked if G.depth[i] > 0]
+        if c < 0.16:
+            S.append({"k": "mod_inspect", "m": rng.choice([0, 0, rng.randint(0, nmods - 1)]), "how": rng.choice(["parameters", "num_params"])})
+        elif c < 0.30 and len(G.params) < 4:
+            new_param(rng.choice([nmods - 1, rng.randint(0, nmods - 1)]))          # often on the deepest child
+            nev += 1
+        elif c < 0.36 and late:
+            link(late.pop())
+        elif c < 0.40:
+            cands = [(m, n) for m in regs for n, v in regs[m].items() if v[0] == "p"]
+            if len(cands) > 1:
+                m, n = rng.choice(cands)
+                S.append({"k": "mod_unset", "m": m, "name": n})
+                del regs[m][n]
+        elif c < 0.58 or not inner:
+            if G.est_nodes < 32:
+                for _ in range(rng.randint(1, 4)):
+                    G.random_op(nograd=rng.random() < 0.04)
+            nev += 1
+        elif c < 0.80:
+            t = rng.choice(inner if rng.random() < 0.85 else tracked)
+            S.append({"k": "backward", "root": t, "seed": G.seed_for(t), "retain_ctx": rng.random() < 0.1})
+            nev += 1
+        elif c < 0.90:
+            S.append({"k": "zero_tree", "m": rng.choice([0, 0, 0, rng.randint(0, nmods - 1)])})
+            nev += 1
+        elif c < 0.95 and opts < 2:
+            m = rng.choice([0, rng.randint(0, nmods - 1)])
+            if reach(m):
+                S.append({"k": "opt_new", "o": opts, "m": m})
+                opts += 1
+        elif opts:
+            S.append({"k": "zero_optim", "o": rng.randint(0, opts - 1)})
+            nev += 1
+    return S
